@@ -380,6 +380,20 @@ theorem loader_exact_on_grl_literals (n : Node) (h : n.grlExact = true) : loader
         simp [loaderNode, loaderVal, h]
       | _ => rfl
     | var t2 f2 => rfl
+    | arr vs =>
+      simp only [Node.grlExact, List.all_eq_true] at h
+      have : vs.map loaderVal = vs := by
+        induction vs with
+        | nil => rfl
+        | cons v vs ih =>
+          have hv := h v (by simp)
+          have hvs := ih (fun x hx => h x (by simp [hx]))
+          cases v with
+          | flt t =>
+            simp only [Val.grlExact, bne_iff_ne, ne_eq] at hv
+            simp [loaderVal, hv, hvs]
+          | _ => simp [loaderVal, hvs]
+      simp [loaderNode, this]
   | and l r ihl ihr =>
     simp only [Node.grlExact, Bool.and_eq_true] at h
     simp [loaderNode, ihl h.1, ihr h.2]
